@@ -3,14 +3,25 @@
 
    Reading guide.  [run_with cpr sreq mkpr fuel is_lazy lat net0 h] builds a channel (lazy:
    Channel::new, eager: Channel::connect = ready_oneshot on the fresh Reconnect), then plays the
-   history [h] over {Env (ConnectFails r), Env ConnectSucceeds, Env ConnectionDropped, Call} against
+   history [h] over {Env (ConnectFails r), Env ConnectSucceeds, Env ConnectionDropped, Calls k} against
    the transcription of Reconnect::{poll_ready, call} driven by the tower Buffer worker.  [h] is
-   arbitrary (any length, calls anywhere, several in a row or none between faults); [lat] is the
+   arbitrary (any length, calls anywhere, several in a row or none between faults); [Calls k] are k
+   calls issued together, i.e. queued in the Buffer and served by the worker one after the other
+   without a quiescent point in between ([Call] = [Calls 1]); [lat] is the
    number of Pending polls of every connect future; [net0] the initial reachability.  hyper's
    SendRequest ([cpr], [sreq]) and the connector's poll_ready ([mkpr]) are ASSUMED to satisfy
    [stack_contract]; the Buffer worker protocol and the waker contract are built into [serve].
    [EnvRacyDrop false] (a call racing with a dying connection) is outside the property's
-   quantifier: theorems that need quiescent points say [quiescent h = true]. *)
+   quantifier: theorems that need quiescent points say [quiescent h = true].
+   Two further connector outcomes are modelled as the real stack behaves (audit M4):
+   [Env ConnectSucceedsDead] / [UpDead]: the transport connects, the peer closes at once, hyper's
+   handshake fails - a connect failure like a refusal (since fix 4d59edca it carries ConnectError,
+   finding F-C14a), part of the property's alphabet;
+   [Env ConnectSucceedsGarbage] / [UpGarbage]: the peer is not HTTP/2; hyper's handshake only
+   writes, so a connection IS established and then dies under the first request (CANCELLED).  Like
+   the racy drop this is a call in flight on a dying connection, outside the quantifier; it is
+   excluded by [plain h] / [plain_net net0] where a theorem speaks about UNAVAILABLE, and described
+   exactly by [c14_handshake_failure_outcome]. *)
 From Coq Require Import List NArith Sorted.
 From Verif Require Import Lib.Obs Gen.StatusTables Model.Reconnect Proofs.Reconnect.
 Import ListNotations.
@@ -27,7 +38,8 @@ Proof. exact call_never_panics. Qed.
 
 (* every call completes with a definite result: never stuck (the fuel [lat + 4] of the drivers is
    never exhausted, for any larger fuel the result is the same by [c14_run_characterised]), one
-   outcome per call issued; at quiescent points the outcome is a response or a ConnectError,
+   outcome per call issued (queued calls included); on the property's alphabet at quiescent
+   points the outcome is a response or a ConnectError (connector refused / handshake failed),
    which Status::from_error maps to UNAVAILABLE *)
 Theorem c14_call_definite :
   forall cpr sreq mkpr, stack_contract cpr sreq mkpr ->
@@ -40,23 +52,23 @@ Theorem c14_call_definite :
                      rec_outcome c <> WorkerClosed /\
                      forall e, rec_outcome c <> ServiceFailed e)
            (r_calls (run_with cpr sreq mkpr fuel is_lazy lat net0 h)) /\
-    (quiescent h = true ->
+    (quiescent h = true -> plain h = true -> plain_net net0 = true ->
      Forall (fun c => rec_outcome c = Response \/
                       exists e, rec_outcome c = ConnectErr e /\
                                 outcome_code (rec_outcome c) = Some Code_Unavailable)
             (r_calls (run_with cpr sreq mkpr fuel is_lazy lat net0 h))).
 Proof. exact call_definite. Qed.
 
-(* including the racy steps: the only further outcome is hyper's cancellation, CANCELLED *)
-Theorem c14_call_definite_racy :
+(* every outcome of every history (racy steps, handshake faults, batches) with its gRPC code *)
+Theorem c14_call_outcome_classes :
   forall cpr sreq mkpr, stack_contract cpr sreq mkpr ->
   forall fuel is_lazy lat net0, enough_fuel lat fuel -> forall h,
     Forall (fun c => rec_outcome c = Response \/
                      (rec_outcome c = Canceled /\ outcome_code (rec_outcome c) = Some Code_Cancelled) \/
-                     exists e, rec_outcome c = ConnectErr e /\
-                               outcome_code (rec_outcome c) = Some Code_Unavailable)
+                     (exists e, rec_outcome c = ConnectErr e /\
+                                outcome_code (rec_outcome c) = Some Code_Unavailable))
            (r_calls (run_with cpr sreq mkpr fuel is_lazy lat net0 h)).
-Proof. exact call_definite_racy. Qed.
+Proof. exact call_outcome_classes. Qed.
 
 (* the whole run is a function of the environment only (spec_result never looks at Reconnect's
    state and has no fuel): in particular more fuel changes nothing *)
@@ -72,8 +84,16 @@ Theorem c14_eager_initial_failure_immediate :
   forall cpr sreq mkpr, stack_contract cpr sreq mkpr ->
   forall fuel lat reason h, enough_fuel lat fuel ->
     run_with cpr sreq mkpr fuel false lat (Down reason) h =
-      mkRun (Some (RoErr (mkErr 1 reason))) [] 1 None.
+      mkRun (Some (RoErr (mkErr 1 reason Refused))) [] 1 None.
 Proof. exact eager_initial_failure_immediate. Qed.
+
+(* the same when the transport connects but the HTTP/2 handshake fails *)
+Theorem c14_eager_handshake_failure_immediate :
+  forall cpr sreq mkpr, stack_contract cpr sreq mkpr ->
+  forall fuel lat h, enough_fuel lat fuel ->
+    run_with cpr sreq mkpr fuel false lat UpDead h =
+      mkRun (Some (RoErr (mkErr 1 0 Handshake))) [] 1 None.
+Proof. exact eager_handshake_failure_immediate. Qed.
 
 Theorem c14_eager_initial_success :
   forall cpr sreq mkpr, stack_contract cpr sreq mkpr ->
@@ -90,7 +110,7 @@ Proof. exact lazy_reports_nothing_at_construction. Qed.
 (* that error is UNAVAILABLE (find_status_in_source_chain: ConnectError) *)
 Theorem c14_connect_error_is_unavailable : forall e,
   outcome_code (ConnectErr e) = Some Code_Unavailable /\
-  code_from_error [LOther; LConnectError; LOther] = Code_Unavailable.
+  code_from_error (chain_of_err e) = Code_Unavailable.
 Proof. exact connect_error_is_unavailable. Qed.
 
 (* once the endpoint is reachable again (whatever happened before: [h1] is arbitrary), the next
@@ -104,15 +124,35 @@ Theorem c14_recovers_without_rebuild :
                 (count_calls h1) = Some (b, Response, a).
 Proof. exact recovers_without_rebuild. Qed.
 
-(* conversely a connect error is only reported while the endpoint refuses, and it carries the
-   reason of the refusal in force, not an older one *)
+(* conversely the connector's error is only reported while the endpoint refuses, and it carries
+   the reason of the refusal in force, not an older one; a handshake error only while the peer
+   closes at once *)
 Theorem c14_unavailable_only_while_unreachable :
   forall cpr sreq mkpr, stack_contract cpr sreq mkpr ->
   forall fuel is_lazy lat net0, enough_fuel lat fuel -> forall h1 h2 c e,
     nth_error (r_calls (run_with cpr sreq mkpr fuel is_lazy lat net0 (h1 ++ Call :: h2)))
               (count_calls h1) = Some c ->
-    rec_outcome c = ConnectErr e -> net_after net0 h1 = Down (e_reason e).
+    rec_outcome c = ConnectErr e ->
+    (net_after net0 h1 = Down (e_reason e) /\ e_kind e = Refused) \/
+    (net_after net0 h1 = UpDead /\ e_kind e = Handshake).
 Proof. exact unavailable_only_while_unreachable. Qed.
+
+(* the two further connector outcomes, exactly: a call that finds no live connection gets the
+   handshake's ConnectError (UNAVAILABLE) while the peer closes at once; while the peer is not
+   HTTP/2 the connection is established and dies under the request (CANCELLED, as for a racy drop) *)
+Theorem c14_handshake_failure_outcome :
+  forall cpr sreq mkpr, stack_contract cpr sreq mkpr ->
+  forall fuel is_lazy lat net0, enough_fuel lat fuel -> forall h1 h2 c,
+    nth_error (r_calls (run_with cpr sreq mkpr fuel is_lazy lat net0 (h1 ++ Call :: h2)))
+              (count_calls h1) = Some c -> quiescent h1 = true ->
+    (net_after net0 h1 = UpDead ->
+     rec_outcome c = Response \/
+     exists e, rec_outcome c = ConnectErr e /\ e_kind e = Handshake /\
+               outcome_code (rec_outcome c) = Some Code_Unavailable) /\
+    (net_after net0 h1 = UpGarbage ->
+     rec_outcome c = Response \/
+     (rec_outcome c = Canceled /\ outcome_code (rec_outcome c) = Some Code_Cancelled)).
+Proof. exact handshake_failure_outcome. Qed.
 
 (* off the quiescent points: at the latest the second call after the endpoint is reachable succeeds *)
 Theorem c14_recovers_after_racy_drop :
@@ -127,7 +167,10 @@ Proof. exact recovers_after_racy_drop. Qed.
 (* a connect failure is reported to the call whose poll_ready triggered the attempt (the attempt
    number in the error is the connector's count right after this call, which this call raised by
    one) and to no other call: the reported attempt numbers strictly increase, the Buffer worker
-   never fails, so no later call is refused on account of an old failure.  Holds for every history, quiescent or not. *)
+   never fails, so no later call is refused on account of an old failure.  Holds for every
+   history: quiescent or not, and in particular for QUEUED calls - each of the k requests of
+   [Calls k] does its own poll_ready, hence its own attempt, and gets exactly that attempt's
+   failure (the records of a batch are consecutive entries of [r_calls]). *)
 Theorem c14_error_reported_once :
   forall cpr sreq mkpr, stack_contract cpr sreq mkpr ->
   forall fuel is_lazy lat net0, enough_fuel lat fuel -> forall h,
@@ -171,10 +214,20 @@ Example c14_history_example :
              Call; Env ConnectSucceeds] in
   built true (Down 3) /\ quiescent h1 = true /\ net_after (Down 3) h1 = Up /\
   r_calls (run true 2 (Down 3) (h1 ++ [Call])) =
-    [(0, ConnectErr (mkErr 1 3), 1); (1, ConnectErr (mkErr 2 3), 2); (2, Response, 3);
-     (3, ConnectErr (mkErr 4 9), 4); (4, Response, 5)] /\
+    [(0, ConnectErr (mkErr 1 3 Refused), 1); (1, ConnectErr (mkErr 2 3 Refused), 2); (2, Response, 3);
+     (3, ConnectErr (mkErr 4 9 Refused), 4); (4, Response, 5)] /\
   r_attempts (run true 2 (Down 3) (h1 ++ [Call])) = 5.
 Proof. repeat split; try reflexivity. left; reflexivity. Qed.
+
+(* queued calls: three calls queued while the endpoint refuses get the failures of three distinct
+   attempts, one each; three queued while it accepts share the one connection the first one made *)
+Example c14_queued_calls_example :
+  plain [Calls 3; Env ConnectSucceeds; Calls 3] = true /\
+  r_calls (run true 2 (Down 3) [Calls 3; Env ConnectSucceeds; Calls 3]) =
+    [(0, ConnectErr (mkErr 1 3 Refused), 1); (1, ConnectErr (mkErr 2 3 Refused), 2);
+     (2, ConnectErr (mkErr 3 3 Refused), 3);
+     (3, Response, 4); (4, Response, 4); (4, Response, 4)].
+Proof. split; reflexivity. Qed.
 
 (* the outcomes the theorems exclude are real outcomes of the model when the protocol the proofs
    rely on is broken: call without poll_ready panics; a never-connected NON-lazy Reconnect put
@@ -185,8 +238,8 @@ Example c14_excluded_outcomes_are_reachable :
   snd (call (new_reconnect true)) = CoPanic /\
   fst (run_steps real_conn_poll_ready real_send_request real_mk_poll_ready 4 [Call; Call]
          (mkChan (new_reconnect false) None) (mkWorld (Down 7) 0 0)) =
-    ([(0, ServiceFailed (mkErr 1 7), 1); (1, WorkerClosed, 1)],
-     mkChan (mkRc (Connecting FutDone) None false false 1) (Some (mkErr 1 7))) /\
+    ([(0, ServiceFailed (mkErr 1 7 Refused), 1); (1, WorkerClosed, 1)],
+     mkChan (mkRc (Connecting FutDone) None false false 1) (Some (mkErr 1 7 Refused))) /\
   snd (pr_loop real_conn_poll_ready real_mk_poll_ready 4
          (mkRc (Connecting FutDone) None false false 1) (mkWorld Up 0 1)) = PrPanic /\
   snd (serve real_conn_poll_ready real_send_request real_mk_poll_ready 2
@@ -200,9 +253,23 @@ Example c14_racy_example :
   outcome_code Canceled = Some Code_Cancelled.
 Proof. split; reflexivity. Qed.
 
+(* the two further connector outcomes on a concrete history (F-C14a fixed: the failed handshake is
+   UNAVAILABLE; the non-HTTP/2 peer: an established connection dying under the request, CANCELLED);
+   one attempt each, recovery afterwards *)
+Example c14_handshake_failure_example :
+  quiescent [Call; Env ConnectSucceedsGarbage; Call; Env ConnectSucceeds; Call] = true /\
+  plain [Call; Env ConnectSucceedsDead; Call; Env ConnectSucceeds; Call] = true /\
+  plain_net UpDead = true /\
+  map (fun c => outcome_code (rec_outcome c))
+      (r_calls (run true 0 UpDead [Call; Env ConnectSucceedsGarbage; Call; Env ConnectSucceeds; Call])) =
+    [Some Code_Unavailable; Some Code_Cancelled; None] /\
+  r_attempts (run true 0 UpDead [Call; Env ConnectSucceedsGarbage; Call; Env ConnectSucceeds; Call]) = 3.
+Proof. repeat split; reflexivity. Qed.
+
 Print Assumptions c14_call_never_panics.
 Print Assumptions c14_call_definite.
 Print Assumptions c14_eager_initial_failure_immediate.
 Print Assumptions c14_recovers_without_rebuild.
 Print Assumptions c14_error_reported_once.
 Print Assumptions c14_attempts_counted.
+Print Assumptions c14_handshake_failure_outcome.
